@@ -623,6 +623,11 @@ func runRepro(o *Out, _ *rand.Rand, thorough bool) {
 		if p.MultiRes {
 			nreps = reps * 4 // map order varies from build to build: more builds of the same input
 		}
+		for _, f := range c.Features {
+			if f == "relation-stated-twice" && nreps < reps*2 {
+				nreps = reps * 2 // likewise: a map over few relations repeats its order often
+			}
+		}
 		for rep := 0; rep < nreps; rep++ {
 			// a fresh model per repetition: "the same model" means the same input and options
 			bt, err, pan := buildCase(c)
